@@ -127,6 +127,39 @@ pub fn run(env: &Env) -> Rec {
         }
     });
     rec.merge(rr);
+    // (a2) every Unicode scalar value as a one-character string (and after a letter) through every Rules method,
+    // prepare and enforce of the four profiles and both string classes
+    let ra2 = par(NCP / 0x400, |i, rec| {
+        let mut s = String::new();
+        for cp in (i * 0x400) as u32..((i + 1) * 0x400) as u32 {
+            let c = match char::from_u32(cp) {
+                Some(c) => c,
+                None => continue,
+            };
+            for with_prefix in [false, true] {
+                s.clear();
+                if with_prefix {
+                    s.push('a');
+                }
+                s.push(c);
+                let case = || format!("label={}", util::esc(&s));
+                for p in ALL_PROF {
+                    for k in ALL_RULES {
+                        flag(rec, &format!("{}::{:?}_rule", p.name(), k), &case, &api::rule(p, k, &s));
+                    }
+                    flag(rec, &format!("{}::enforce", p.name()), &case, &api::enforce(p, &s));
+                    if !with_prefix {
+                        flag(rec, &format!("{}::prepare", p.name()), &case, &api::prepare(p, &s));
+                    }
+                }
+                for cl in ALL_CLASS {
+                    flag(rec, &format!("{:?}::allows", cl), &case, &api::class_allows(cl, &s));
+                }
+            }
+        }
+    });
+    rec.merge(ra2);
+    rec.exhaustive("every Unicode scalar value as c and a c through all five Rules methods, prepare/enforce of the four profiles and allows of both classes");
     // (b) exhaustive multi-byte strings
     let max_len = if env.quick() { 5 } else { 6 };
     let k = gen::ALPHA9.len();
